@@ -13,7 +13,9 @@ Recognised shapes (anything else raises Untranslatable -> tie broken):
     <cond>   ::= preferred_type.__init__ is Exception.__init__          -> CFact  ("identity")
                | <module-level function of error_utils>(preferred_type)  -> CFact  ("call:<name>")
                | preferred_type in KNOWN_STRING_CONSTRUCTOR_ERRORS       -> CKnown
-               | preferred_type is KeyError                              -> CIsKeyError
+               | preferred_type is KeyError                              -> CIsKeyError, key_error_types = [KeyError]
+               | preferred_type in (KeyError, MultilineMessageKeyError)  -> CIsKeyError, key_error_types = both
+                 (a tuple display of KeyError and classes of error_utils derived from KeyError)
              (at most one distinct CFact test)
     <action> ::= preferred_type(self.get_message())                                       -> ASame
                | MultilineMessageKeyError(self.get_message(), self.cause_message)         -> AMultilineKeyError
@@ -109,6 +111,9 @@ def translate(repo):
             and _u(last.body[0]) == 'return to_ret.with_traceback(source_error.__traceback__)'):
         _fail(eu_path, last, 'create_exception epilogue')
     facts = []
+    keytypes = []
+    eu_keyerror_classes = set(n.name for n in eu.body if isinstance(n, ast.ClassDef)
+                              and [_u(b) for b in n.bases] == ['KeyError'])
 
     def cond(t):
         s = _u(t)
@@ -122,7 +127,21 @@ def translate(repo):
         if s == 'preferred_type in KNOWN_STRING_CONSTRUCTOR_ERRORS':
             return 'CKnown'
         if s == 'preferred_type is KeyError':
+            keytypes.append(['builtins.KeyError'])
             return 'CIsKeyError'
+        if (isinstance(t, ast.Compare) and len(t.ops) == 1 and isinstance(t.ops[0], ast.In)
+                and _u(t.left) == 'preferred_type' and isinstance(t.comparators[0], ast.Tuple)):
+            names = []
+            for e in t.comparators[0].elts:
+                if isinstance(e, ast.Name) and e.id == 'KeyError':
+                    names.append('builtins.KeyError')
+                elif isinstance(e, ast.Name) and e.id in eu_keyerror_classes:
+                    names.append('malt.pyct.error_utils.' + e.id)
+                else:
+                    _fail(eu_path, e, 'element of the KeyError test is neither KeyError nor a KeyError subclass of error_utils')
+            if 'builtins.KeyError' in names:
+                keytypes.append(names)
+                return 'CIsKeyError'
         _fail(eu_path, t, 'unrecognised condition in create_exception: ' + s)
 
     def action(stmts):
@@ -153,6 +172,9 @@ def translate(repo):
     if len(set(facts)) > 1:
         _fail(eu_path, ce, 'more than one plain-constructor test: %s' % sorted(set(facts)))
     fact_name = facts[0] if facts else 'none'
+    if len(keytypes) > 1:
+        _fail(eu_path, ce, 'more than one KeyError test')
+    key_types = keytypes[0] if keytypes else []
 
     # the KeyError subclass must stay a KeyError that prints the message
     mk = _find(eu, ast.ClassDef, 'MultilineMessageKeyError', eu_path)
@@ -262,6 +284,7 @@ def translate(repo):
         '',
         'Definition known_string_constructor_errors : list string := [%s].' % '; '.join(S(k) for k in known),
         'Definition pass_through_types : list string := [%s].' % '; '.join(S(k) for k in passthrough),
+        'Definition key_error_types : list string := [%s].' % '; '.join(S(k) for k in key_types),
         'Definition base_rules : list ifchain := [%s].' % '; '.join(rules),
         'Definition fact_name : string := %s.' % S(fact_name),
         '(* cause_tb = traceback.extract_tb(...)[attach_drop:] *)',
